@@ -60,6 +60,9 @@ class _EventModel:
 
     def m_wait(self, interp, obj, args, kwargs, fr):
         # returns only after the flag was set at some point; another task may run meanwhile
+        if getattr(interp, "clock", None) is not None:
+            # when the wait on this event began (contracts: call_time('wait:<field>'))
+            interp.traces.setdefault("call_times", []).append((f"wait:{(obj.tag or '').split('.')[-1]}", interp.clock))
         interp.yield_point(fr, "Event.wait")
         # ... and for an event that is never cleared it is still set
         interp.ctx.assume(z3.Implies(_flag(obj.fields.get("sticky", False)), _flag(obj.fields["flag"])))
